@@ -1,27 +1,34 @@
 """C11 — GP trees stay well-formed, well-typed and within limits under all operators (deap/gp.py)."""
 import copy
 import itertools
+import functools
 import operator
 import os
+import pickle
 import random
+import warnings
 
 from lib import Case, fbits
 import tape as _tape
 from deap import gp
 
-ANCHORS = [("deap/gp.py", ["PrimitiveTree.__setitem__", "PrimitiveTree.height", "PrimitiveTree.root",
+ANCHORS = [("deap/gp.py", ["PrimitiveTree.__init__", "PrimitiveTree.__deepcopy__", "PrimitiveTree.__setitem__", "PrimitiveTree.height", "PrimitiveTree.root",
                            "PrimitiveTree.searchSubtree", "PrimitiveSetTyped._add", "PrimitiveSetTyped.terminalRatio",
-                           "generate", "genFull", "genGrow", "genHalfAndHalf", "cxOnePoint", "cxOnePointLeafBiased",
+                           "generate", "genFull", "genGrow", "genHalfAndHalf", "genRamped", "cxOnePoint", "cxOnePointLeafBiased",
                            "mutUniform", "mutNodeReplacement", "mutEphemeral", "mutInsert", "mutShrink",
                            "staticLimit"])]
 LEVEL = "proof"
 RULE = ("primitive sets: 4 loose, 8 strongly typed (subclass pairs, object-rooted, terminals-only type, strict-subclass "
         "returning primitive, two distinct homonymous types) and 6 with the int/bool/float vocabulary registered in shuffled order; "
-        "exhaustive part: every primitive set x generator (full, grow, half-and-half) x every min <= max in 0..6 x every "
-        "requestable type (sizes capped); then every operator (cxOnePoint, cxOnePointLeafBiased, mutUniform with the three "
-        "replacement generators, mutNodeReplacement, mutEphemeral one/all, mutInsert, mutShrink), bare and wrapped by "
+        "searchSubtree at every Python int index (-len <= i < len through the oracle; IndexError / wrap-around below -len against "
+        "the model); exhaustive part: every primitive set x generator (full, grow, half-and-half; genRamped on a third of the "
+        "grid) x every min <= max in 0..6 x every requestable type (sizes capped); histories: chains of 3-8 operators on the same "
+        "2-3 tree objects (all mutations, both crossovers, bare / some / all wrapped by one staticLimit) with read-only looks "
+        "(searchSubtree at every or some indices, height, str), deepcopy clones and pickle round trips in between, checked after "
+        "every step and replayed as a whole by the model; then every operator (cxOnePoint, cxOnePointLeafBiased, mutUniform with "
+        "the three replacement generators, mutNodeReplacement, mutEphemeral one/all, mutInsert, mutShrink), bare and wrapped by "
         "staticLimit(len | height), on trees from the real generators incl. single-node trees, with the recorded tape "
-        "replayed by the Lean model; searchSubtree at every index, height, __setitem__ guards, _add pools. "
+        "replayed by the Lean model; height, __setitem__ guards, _add pools. "
         "Non-trivial = distinct case in which the operator changed a tree / the generated tree has more than one node")
 EXHAUSTIVE = {"quick": False, "thorough": False}
 TIME_BUDGET = {"quick": 50, "thorough": 800}
@@ -29,7 +36,14 @@ TRUSTED = ["CPython list slicing / slice assignment / defaultdict / issubclass (
            "random.randint(a, b) returns a value in [a, b], random.randrange(a, b) one in [a, b), random.choice(seq) an element "
            "of seq (the contracts the tape draws are checked against)",
            "IEEE-754 double division and comparison (terminalRatio, termpb) are the same operation in Lean's Float"]
-ASSUMPTIONS = ["primitive sets: every primitive has arity >= 1, every terminal arity 0; where a requested type has no "
+ASSUMPTIONS = ["an index of searchSubtree is read as Python reads a list index: -len <= i < len, a negative one counting from "
+               "the end; the returned slice must select exactly the nodes of the subtree rooted at tree[i] (slice.indices), "
+               "whether its start is reported negative or normalised is not demanded; other ints are no node's index "
+               "(model vs implementation only)",
+               "a history applies operators to tree objects that earlier operators, read-only calls, copy.deepcopy or a pickle "
+               "round trip produced; the trees of one history share the root slot (a population), so a static-limited "
+               "crossover may hand back a copy of either parent",
+               "primitive sets: every primitive has arity >= 1, every terminal arity 0; where a requested type has no "
                "terminal / no primitive, generate raises its documented IndexError and produces no tree (model: none)",
                "ephemeral generators draw their value with random.randint (so the value is on the tape)",
                "the two parents of a crossover are distinct objects (algorithms.varAnd clones them; cxOnePoint(t, t) "
@@ -41,12 +55,14 @@ ASSUMPTIONS = ["primitive sets: every primitive has arity >= 1, every terminal a
                "parameters may be positional or keywords, all forms are exercised"]
 MIN_CASES = 2000
 CASE_TIMEOUT = 10
-EXPLANATION = ("Closure theorems for every `.ok` result, and totality theorems (gen_total, cx_total, cxlb_total, mut*_total): on "
+EXPLANATION = ("Closure theorems for every `.ok` result — per operator and, by induction over the operator list, along every "
+               "history of (possibly static-limited) operators on the same tree objects (ops_closed_history, ops_limit_history) — "
+               "and totality theorems (gen_total, cx_total, cxlb_total, mut*_total, staticLimit_total): on "
                "well-formed inputs the model never ends in the fault `raised` (Python exception) or `fuel`, and returns on every "
                "well-typed tape longer than an explicit bound. "
                "Theorems C11.* are proved for every primitive set satisfying the pool invariant established by _add, all "
                "trees, all tapes (no size bounds); the correspondence ties Core/GpTree.lean to deap.gp by replaying the "
-               "recorded random draws.")
+               "recorded random draws, single calls and whole histories (one `hist` line per chain).")
 
 SIZE_CAP = 700
 
@@ -533,7 +549,14 @@ def well_formed(nodes, slot):
 # building trees with the real generators
 # ----------------------------------------------------------------------------------------------
 
-GEN = {"full": gp.genFull, "grow": gp.genGrow, "half": gp.genHalfAndHalf}
+def _ramped(*a, **k):
+    # the deprecated name of genHalfAndHalf (it warns, then calls it)
+    with warnings.catch_warnings():
+        warnings.simplefilter("ignore")
+        return gp.genRamped(*a, **k)
+
+
+GEN = {"full": gp.genFull, "grow": gp.genGrow, "half": gp.genHalfAndHalf, "ramped": _ramped}
 
 
 def documented(e):
@@ -591,8 +614,35 @@ def gen_oracle(ps, g, tree, tp):
 # evaluate
 # ----------------------------------------------------------------------------------------------
 
-def observe_lines(ps, tree, limit=40, rnd=None):
-    """search/height/root/check lines + the oracle for the observers"""
+def span_of(tree, i):
+    """searchSubtree(i) as `start:stop` (`none` for the IndexError of an index that is not a node's)"""
+    try:
+        s = tree.searchSubtree(i)
+    except IndexError:
+        return None
+    return (s.start, s.stop)
+
+
+def span_oracle(tree, i, s, sp):
+    """the statement for one index -len <= i < len: the returned slice selects exactly the nodes of the subtree rooted
+    at the node `tree[i]` (read as Python reads a slice: `slice.indices`; whether a negative index comes back as a
+    negative or as a normalised start is not demanded)"""
+    n = len(tree)
+    j = i % n
+    if s is None:
+        return "searchSubtree(%d) raised IndexError although %d is the index of a node" % (i, i)
+    try:
+        norm = slice(s[0], s[1]).indices(n)
+    except TypeError:
+        return "searchSubtree(%d) returned slice(%r, %r)" % (i, s[0], s[1])
+    if norm != (j, sp[j], 1):
+        return "searchSubtree(%d) = [%s,%s) but the subtree rooted there spans [%d,%d)" % (i, s[0], s[1], j, sp[j])
+    return None
+
+
+def observe_lines(ps, tree, limit=40, rnd=None, some=None):
+    """searchSubtree at every Python index -len <= i < len (a sample of them above `limit` nodes, or `some` of them),
+    height, root: protocol lines + the oracle for the observers"""
     lines, expect, orc = [], [], None
     nodes = ps.nodes_tok(tree)
     try:
@@ -600,18 +650,29 @@ def observe_lines(ps, tree, limit=40, rnd=None):
     except Bad as e:
         return [], [], "observer input: %s" % e
     sp = spans(t)
-    idx = list(range(len(tree)))
-    if len(idx) > limit:
-        idx = sorted((rnd or random.Random(len(tree))).sample(idx, limit - 2) + [0, len(tree) - 1])
-    for i in idx:
-        s = tree.searchSubtree(i)
-        lines.append("C11 search %s %d" % (nodes, i))
-        expect.append("%d %d" % (s.start, s.stop))
-        if (s.start, s.stop) != (i, sp[i]) and orc is None:
-            orc = "searchSubtree(%d) = [%d,%d) but the subtree rooted there spans [%d,%d)" % (i, s.start, s.stop, i, sp[i])
-    h = tree.height
-    lines.append("C11 height %s" % nodes)
-    expect.append(str(h))
+    n = len(tree)
+    idx = list(range(-n, n))
+    if some is not None:
+        idx = sorted(set(some))
+    elif n > limit:
+        idx = sorted(set((rnd or random.Random(n)).sample(idx, limit - 4) + [0, n - 1, -1, -n]))
+    if len(idx) == 2 * n:
+        # every index in one line (which also carries the height)
+        got = [span_of(tree, i) for i in idx]
+        h = tree.height
+        lines.append("C11 spans %s" % nodes)
+        expect.append("%s %d" % (",".join("none" if s is None else "%s:%s" % s for s in got), h))
+        for i, s in zip(idx, got):
+            orc = orc or span_oracle(tree, i, s, sp)
+    else:
+        for i in idx:
+            s = span_of(tree, i)
+            lines.append("C11 search %s %d" % (nodes, i))
+            expect.append("none" if s is None else "%s %s" % s)
+            orc = orc or span_oracle(tree, i, s, sp)
+        h = tree.height
+        lines.append("C11 height %s" % nodes)
+        expect.append(str(h))
     if h != t_height(t) and orc is None:
         orc = "height %d but the deepest node is at depth %d" % (h, t_height(t))
     lines.append("C11 root %s" % nodes)
@@ -623,6 +684,258 @@ def observe_lines(ps, tree, limit=40, rnd=None):
 
 def key_fn(name):
     return len if name == "len" else operator.attrgetter("height")
+
+
+def op_call(ps, k, d, trees, btok):
+    """the operator `k` with the parameters of `d` on the tree objects `trees`: (function, protocol tokens without the
+    tape, how it is called given the possibly decorated function)"""
+    if k == "cx":
+        fn, optoks = gp.cxOnePoint, "cx %s %s" % tuple(btok)
+        call = (lambda f: f(trees[0], ind2=trees[1])) if d.get("kw2") else (lambda f: f(trees[0], trees[1]))
+    elif k == "cxlb":
+        fn, optoks = gp.cxOnePointLeafBiased, "cxlb %s %s %s" % (btok[0], btok[1], fbits(d["termpb"]))
+        if d.get("kw2"):        # the second parent by keyword: mate(ind1, ind2=ind2, termpb=...)
+            call = lambda f: f(trees[0], ind2=trees[1], termpb=d["termpb"])
+        else:
+            call = (lambda f: f(trees[0], trees[1], d["termpb"])) if d.get("pos") else \
+                (lambda f: f(trees[0], trees[1], termpb=d["termpb"]))
+    elif k == "mutu":
+        expr = functools.partial(GEN[d["emode"]], min_=d["emn"], max_=d["emx"])
+        fn, optoks = gp.mutUniform, "mutu %s %s %s %d %d" % (ps.tokens(), btok[0], d["emode"], d["emn"], d["emx"])
+        call = (lambda f: f(trees[0], expr, ps.pset)) if d.get("pos") else (lambda f: f(trees[0], expr=expr, pset=ps.pset))
+    elif k == "mutn":
+        fn, optoks = gp.mutNodeReplacement, "mutn %s %s" % (ps.tokens(), btok[0])
+        call = (lambda f: f(trees[0], ps.pset)) if d.get("pos") else (lambda f: f(trees[0], pset=ps.pset))
+    elif k == "mute":
+        fn, optoks = gp.mutEphemeral, "mute %s %s" % (btok[0], d["mode"])
+        call = (lambda f: f(trees[0], d["mode"])) if d.get("pos") else (lambda f: f(trees[0], mode=d["mode"]))
+    elif k == "muti":
+        fn, optoks = gp.mutInsert, "muti %s %s" % (ps.tokens(), btok[0])
+        call = (lambda f: f(trees[0], ps.pset)) if d.get("pos") else (lambda f: f(trees[0], pset=ps.pset))
+    elif k == "muts":
+        fn, optoks = gp.mutShrink, "muts %s" % btok[0]
+        call = lambda f: f(trees[0])
+    else:
+        raise ValueError(k)
+    return fn, optoks, call
+
+
+# ----------------------------------------------------------------------------------------------
+# searchSubtree at every Python index
+# ----------------------------------------------------------------------------------------------
+
+def eval_search(ps, d):
+    """every int index a caller can pass: -len <= i < len are the indices of the nodes (oracle: the span of the subtree
+    rooted at tree[i]); outside, the model follows the code (IndexError, or below -len the walk that wraps around)"""
+    tree, _ = make_tree(ps, d["t"], retry=200)
+    msg = well_formed(tree, ps.types[d["t"]["ty"]])
+    if msg:
+        return Case(d, [], [], "generated expression: " + msg, tag="search")
+    n = len(tree)
+    nodes = ps.nodes_tok(tree)
+    sp = spans(parse_all(list(tree)))
+    lines, expect, orc = [], [], None
+    r = random.Random(d["seed"])
+    inside = list(range(-n, n))
+    if len(inside) > 24:
+        inside = sorted(set(r.sample(inside, 20) + [-n, -1, 0, n - 1]))
+    outside = sorted(set([n, n + 1, -n - 1, -2 * n, -2 * n - 1, r.randrange(-2 * n - 2, -n), r.randrange(n, 2 * n + 2)]))
+    for i in inside + outside:
+        s = span_of(tree, i)
+        lines.append("C11 search %s %d" % (nodes, i))
+        expect.append("none" if s is None else "%s %s" % s)
+        if -n <= i < n:
+            orc = orc or span_oracle(tree, i, s, sp)
+    return Case(d, lines, expect, orc, tag="search/%s" % d["ps"], nontrivial=n > 1)
+
+
+# ----------------------------------------------------------------------------------------------
+# histories: chains of operators on the same tree objects
+# ----------------------------------------------------------------------------------------------
+
+UNPICKLABLE = ("typedH",)      # its two homonymous types cannot be found by name: a pickle step is a deepcopy there
+CHAIN_CAP = 150        # a chain ends when a tree outgrows this many nodes (the protocol lines carry whole trees)
+
+
+def step_tok(st, lim_tok):
+    k = st["op"]
+    if k == "cx":
+        body = "cx|%d|%d" % (st["i"], st["j"])
+    elif k == "cxlb":
+        body = "cxlb|%d|%d|%s" % (st["i"], st["j"], fbits(st["termpb"]))
+    elif k == "mutu":
+        body = "mutu|%d|%s|%d|%d" % (st["i"], st["emode"], st["emn"], st["emx"])
+    elif k == "mute":
+        body = "mute|%d|%s" % (st["i"], st["mode"])
+    else:
+        body = "%s|%d" % (k, st["i"])
+    return (lim_tok + "|" + body) if lim_tok else body
+
+
+def look(ps, tree, how, rnd):
+    """read-only calls on a tree of the history: searchSubtree (every index / some of them), height, str"""
+    if how == "none":
+        return [], [], None
+    some = None
+    if how == "some":
+        n = len(tree)
+        some = rnd.sample(range(-n, n), min(2 * n, rnd.randint(1, 4)))
+    l, e, orc = observe_lines(ps, tree, limit=10 ** 9, some=some)
+    if orc is None:
+        str(tree)
+    return l, e, orc
+
+
+def eval_seq(ps, d):
+    trees = [make_tree(ps, g, retry=200)[0] for g in d["t"]]
+    slot = ps.types[d["t"][0]["ty"]]
+    for tree in trees:
+        msg = well_formed(tree, slot)
+        if msg:
+            return Case(d, [], [], "generated expression: " + msg, tag="seq")
+    lines, expect, orc = [], [], None
+    init = [ps.nodes_tok(t) for t in trees]
+    hsteps, htape = [], []
+    lim = d.get("lim")
+    key = maxv = None
+    if lim:
+        key = key_fn(lim["key"])
+        maxv = max(0, max(key(t) for t in trees) + lim["delta"])
+    changed = False
+    ended = ""
+    nops = 0
+
+    def fail(n, st, msg):
+        what = st.get("op", st["a"])
+        return "history step %d (%s%s): %s" % (n, what, " under staticLimit" if st.get("lim") else "", msg)
+
+    def flush():
+        """the operators since the last flush, replayed as ONE history by the model (`runHistory`)"""
+        if hsteps:
+            lines.append(" ".join(["C11 hist", ps.tokens(), str(len(init))] + init + [str(len(hsteps))] + hsteps +
+                                  [",".join(htape) if htape else "-"]))
+            expect.append("%s 0" % " ".join(ps.nodes_tok(t) for t in trees))
+        init[:] = [ps.nodes_tok(t) for t in trees]
+        del hsteps[:], htape[:]
+
+    for n, st in enumerate(d["steps"]):
+        a = st["a"]
+        rnd = random.Random(st["seed"])
+        if a == "copy":
+            # toolbox.clone of one object into another place of the population: both stay in use
+            flush()
+            src = trees[st["i"]]
+            if st.get("via") == "pickle" and ps.name not in UNPICKLABLE:
+                trees[st["j"]] = pickle.loads(pickle.dumps(src, st.get("proto", 2)))
+            else:
+                trees[st["j"]] = copy.deepcopy(src)
+            init[:] = [ps.nodes_tok(t) for t in trees]
+        elif a == "look":
+            l2, e2, o2 = look(ps, trees[st["i"]], st["how"], rnd)
+            lines += l2
+            expect += e2
+            if o2:
+                orc = fail(n, st, o2)
+        elif a == "clone":
+            trees[st["i"]] = copy.deepcopy(trees[st["i"]])
+        elif a == "pickle":
+            if ps.name in UNPICKLABLE:
+                trees[st["i"]] = copy.deepcopy(trees[st["i"]])
+            else:
+                trees[st["i"]] = pickle.loads(pickle.dumps(trees[st["i"]], st.get("proto", 2)))
+        else:
+            k = st["op"]
+            pos = [st["i"], st["j"]] if k in ("cx", "cxlb") else [st["i"]]
+            args = [trees[i] for i in pos]
+            before = [list(t) for t in args]
+            fn, optoks, call = op_call(ps, k, st, args, [ps.nodes_tok(t) for t in args])
+            lim_tok = None
+            if st.get("lim"):
+                fn = gp.staticLimit(key=key, max_value=maxv)(fn)
+                npos = 1 if st.get("kw2") else len(args)
+                optoks = "slim %s %d %d %s" % (lim["key"], maxv, npos, optoks)
+                lim_tok = "slim|%s|%d|%d" % (lim["key"], maxv, npos)
+            with MyTape(rng=rnd) as tp:
+                try:
+                    out = list(call(fn))
+                except IndexError:
+                    # a type without terminal / primitive (generate's documented IndexError inside mutUniform,
+                    # random.choice([]) of the terminal pool inside mutInsert): no offspring, the history ends here
+                    if ps.name not in PARTIAL or k not in ("mutu", "muti"):
+                        raise
+                    out = None
+            if out is None:
+                lines.append("C11 %s %s" % (optoks, tape_tok(ps, tp)))
+                expect.append("none")
+                ended = "/raises"
+                break
+            nops += 1
+            if len(out) != len(args):
+                orc = fail(n, st, "operator returned %d trees for %d" % (len(out), len(args)))
+                break
+            for o in out:
+                if not isinstance(o, gp.PrimitiveTree):
+                    orc = orc or fail(n, st, "returned a %s instead of a tree" % type(o).__name__)
+            if orc:
+                break
+            lines.append("C11 %s %s" % (optoks, tape_tok(ps, tp)))
+            expect.append("%s 0" % " ".join(ps.nodes_tok(o) for o in out))
+            hsteps.append(step_tok(st, lim_tok))
+            tt = tape_tok(ps, tp)
+            if tt != "-":
+                htape.append(tt)
+            # ---- the statement, after this step ----
+            for o in out:
+                msg = well_formed(o, slot)
+                if msg:
+                    orc = orc or fail(n, st, "output: " + msg)
+            if orc is None and not st.get("lim"):
+                if k in ("cx", "cxlb") and sum(map(len, out)) != sum(map(len, before)):
+                    orc = fail(n, st, "crossover changed the total node count %d -> %d" % (sum(map(len, before)), sum(map(len, out))))
+                if k == "muts" and len(out[0]) > len(before[0]):
+                    orc = fail(n, st, "shrink grew the tree %d -> %d" % (len(before[0]), len(out[0])))
+                if k == "muti" and len(out[0]) < len(before[0]):
+                    orc = fail(n, st, "insert shrank the tree %d -> %d" % (len(before[0]), len(out[0])))
+            if orc is None and st.get("lim") and all(key(gp.PrimitiveTree(b)) <= maxv for b in before):
+                for o in out:
+                    if key(o) > maxv:
+                        orc = orc or fail(n, st, "staticLimit(%s, %d) returned a tree measuring %d although the inputs respected the limit"
+                                          % (lim["key"], maxv, key(o)))
+            changed = changed or any(list(o) != b for o, b in zip(out, before))
+            for i, o in zip(pos, out):
+                trees[i] = o
+            if orc is None and st.get("how", "all") != "none":
+                # the observers on the objects the operator just worked on
+                for i in pos:
+                    l2, e2, o2 = look(ps, trees[i], st.get("how", "all"), rnd)
+                    lines += l2
+                    expect += e2
+                    if o2:
+                        orc = orc or fail(n, st, "afterwards " + o2)
+            if max(len(t) for t in trees) > CHAIN_CAP:
+                ended = "/cap"
+                break
+        if orc:
+            break
+    if orc is None and not ended.startswith("/raises"):
+        # the end of the history: every object once more at every index, and the whole history through the model
+        for i, t in enumerate(trees):
+            msg = well_formed(t, slot)
+            if msg:
+                orc = orc or "after the history, tree %d: %s" % (i, msg)
+        for t in trees:
+            if orc:
+                break
+            l2, e2, o2 = look(ps, t, "all", None)
+            lines += l2
+            expect += e2
+            if o2:
+                orc = "after the history: " + o2
+        if orc is None:
+            flush()
+    tag = "seq%s/%s/%dops%s/%s" % ("+lim" if lim and all(st.get("lim") for st in d["steps"] if st["a"] == "op") else
+                                    "+somelim" if lim else "", d["ps"], nops, ended, "changed" if changed else "same")
+    return Case(d, lines, expect, orc, tag=tag, nontrivial=changed)
 
 
 def evaluate(d):
@@ -646,6 +959,12 @@ def evaluate(d):
         t = parse_all(list(tree)) if orc is None else None
         tag = "gen/%s/%s/h=%s" % (d["ps"], d["mode"], t_height(t) if t else "?")
         return Case(d, lines, expect, orc, tag=tag, nontrivial=len(tree) > 1)
+
+    if k == "search":
+        return eval_search(ps, d)
+
+    if k == "seq":
+        return eval_seq(ps, d)
 
     if k == "add":
         # the pools as filled by _add vs the model of _add
@@ -696,12 +1015,9 @@ def evaluate(d):
             exp = "none"
         lines.append("C11 height %s" % ps.nodes_tok(cut))
         expect.append(exp)
-        j = r.randrange(len(cut))
-        try:
-            s = cut.searchSubtree(j)
-            exp = "%d %d" % (s.start, s.stop)
-        except IndexError:
-            exp = "none"
+        j = r.randrange(-len(cut), len(cut))
+        sj = span_of(cut, j)
+        exp = "none" if sj is None else "%s %s" % sj
         lines.append("C11 search %s %d" % (ps.nodes_tok(cut), j))
         expect.append(exp)
         msg = well_formed(cut, object)
@@ -726,35 +1042,7 @@ def evaluate(d):
             return Case(d, [], [], "generated expression: " + msg, tag=k)
     before = [list(t) for t in trees]
     btok = [ps.nodes_tok(t) for t in trees]
-    if k == "cx":
-        fn, optoks = gp.cxOnePoint, "cx %s %s" % tuple(btok)
-        call = (lambda f: f(trees[0], ind2=trees[1])) if d.get("kw2") else (lambda f: f(trees[0], trees[1]))
-    elif k == "cxlb":
-        fn, optoks = gp.cxOnePointLeafBiased, "cxlb %s %s %s" % (btok[0], btok[1], fbits(d["termpb"]))
-        if d.get("kw2"):        # the second parent by keyword: mate(ind1, ind2=ind2, termpb=...)
-            call = lambda f: f(trees[0], ind2=trees[1], termpb=d["termpb"])
-        else:
-            call = (lambda f: f(trees[0], trees[1], d["termpb"])) if d.get("pos") else \
-                (lambda f: f(trees[0], trees[1], termpb=d["termpb"]))
-    elif k == "mutu":
-        import functools
-        expr = functools.partial(GEN[d["emode"]], min_=d["emn"], max_=d["emx"])
-        fn, optoks = gp.mutUniform, "mutu %s %s %s %d %d" % (ps.tokens(), btok[0], d["emode"], d["emn"], d["emx"])
-        call = (lambda f: f(trees[0], expr, ps.pset)) if d.get("pos") else (lambda f: f(trees[0], expr=expr, pset=ps.pset))
-    elif k == "mutn":
-        fn, optoks = gp.mutNodeReplacement, "mutn %s %s" % (ps.tokens(), btok[0])
-        call = (lambda f: f(trees[0], ps.pset)) if d.get("pos") else (lambda f: f(trees[0], pset=ps.pset))
-    elif k == "mute":
-        fn, optoks = gp.mutEphemeral, "mute %s %s" % (btok[0], d["mode"])
-        call = (lambda f: f(trees[0], d["mode"])) if d.get("pos") else (lambda f: f(trees[0], mode=d["mode"]))
-    elif k == "muti":
-        fn, optoks = gp.mutInsert, "muti %s %s" % (ps.tokens(), btok[0])
-        call = (lambda f: f(trees[0], ps.pset)) if d.get("pos") else (lambda f: f(trees[0], pset=ps.pset))
-    elif k == "muts":
-        fn, optoks = gp.mutShrink, "muts %s" % btok[0]
-        call = lambda f: f(trees[0])
-    else:
-        raise ValueError(k)
+    fn, optoks, call = op_call(ps, k, d, trees, btok)
     lim = d.get("lim")
     maxv = None
     if lim:
@@ -877,18 +1165,83 @@ def op_desc(rng, ps, k):
 OPS = ["cx", "cxlb", "mutu", "mutn", "mute", "muti", "muts"]
 
 
+def seq_desc(rng, ps, limited, sparse):
+    """a history: 2-3 trees for one root slot (a population), 3-8 operators on them - every mutation, both crossovers,
+    bare or under staticLimit (`limited`: all / some / none of them) - with read-only looks (searchSubtree, height, str),
+    deepcopy clones and pickle round trips (in place, or of one object into another place of the population) in between.  `sparse`: after a step only some indices are looked at (or none),
+    so that what a tree object may remember from earlier calls differs from chain to chain."""
+    npop = rng.choice([2, 2, 3])
+    g = rand_tree_desc(rng, ps, small=True)
+    if rng.random() < 0.7:
+        g["mx"] = max(g["mx"], 2)
+    ts = [g]
+    for _ in range(npop - 1):
+        h = rand_tree_desc(rng, ps, small=True)
+        h["ty"] = g["ty"]
+        h.pop("noty", None)
+        if h["ty"] == ps.tid(ps.pset.ret) and rng.random() < 0.5:
+            h["noty"] = True
+        ts.append(h)
+    d = {"k": "seq", "ps": ps.name, "t": ts, "steps": [], "seed": rng.randrange(1 << 30)}
+    if limited != "none":
+        d["lim"] = {"key": rng.choice(["len", "height"]), "delta": rng.choice([0, 0, 1, 2, 4])}
+    steps = d["steps"]
+
+    def aux():
+        r = rng.random()
+        i = rng.randrange(npop)
+        if r < 0.45:
+            steps.append({"a": "look", "i": i, "how": rng.choice(["all", "all", "some"]), "seed": rng.randrange(1 << 30)})
+        elif r < 0.60:
+            steps.append({"a": "clone", "i": i, "seed": 0})
+        elif r < 0.72:
+            steps.append({"a": "pickle", "i": i, "proto": rng.choice([0, 2, pickle.HIGHEST_PROTOCOL]), "seed": 0})
+        elif r < 0.84:
+            j = rng.choice([x for x in range(npop) if x != i])
+            steps.append({"a": "copy", "i": i, "j": j, "via": rng.choice(["deepcopy", "deepcopy", "pickle"]),
+                          "proto": rng.choice([0, 2, pickle.HIGHEST_PROTOCOL]), "seed": 0})
+
+    if rng.random() < 0.8:
+        # somebody looks at the fresh trees first
+        for i in range(npop):
+            if rng.random() < 0.8:
+                steps.append({"a": "look", "i": i, "how": "all" if rng.random() < 0.8 else "some", "seed": rng.randrange(1 << 30)})
+    for n in range(rng.randint(3, 8)):
+        k = rng.choice(OPS)
+        st = op_desc(rng, ps, k)
+        del st["t"], st["ps"], st["k"]
+        st["a"], st["op"] = "op", k
+        st["i"] = rng.randrange(npop)
+        if k in ("cx", "cxlb"):
+            st["j"] = rng.choice([x for x in range(npop) if x != st["i"]])
+        if limited == "all" or (limited == "some" and rng.random() < 0.5):
+            st["lim"] = True
+        st["how"] = rng.choice(["some", "none", "none", "all"]) if sparse else "all"
+        steps.append(st)
+        aux()
+        if rng.random() < 0.3:
+            aux()
+    return d
+
+
 def generate(tier, rng, mult):
     thorough = tier == "thorough"
     for name in PSNAMES:
         yield {"k": "add", "ps": name}
+    # searchSubtree at every Python index (negative ones count from the end, as the list is indexed)
+    for i in range((3000 if thorough else 240) * mult):
+        ps = get_ps(PSNAMES[i % len(PSNAMES)])
+        yield {"k": "search", "ps": ps.name, "t": rand_tree_desc(rng, ps, small=i % 3 != 0), "seed": rng.randrange(1 << 30)}
     # every min <= max in 0..6, every generator, every set, every requestable type
     nseeds = 3 if thorough else 1
     for name in PSNAMES:
         ps = get_ps(name)
         for mn in range(0, 7):
             for mx in range(mn, 7):
-                for mode in ("full", "grow", "half"):
+                for mode in ("full", "grow", "half", "ramped"):
                     for ty in ps.requestable():
+                        if mode == "ramped" and (mn + 2 * mx) % 3:      # the alias: a third of the (min, max) grid
+                            continue
                         if mode != "grow" and mn >= 5 and name != "unary" and not thorough:
                             if rng.random() < 0.7:
                                 continue
@@ -901,6 +1254,12 @@ def generate(tier, rng, mult):
                             if mode != "grow" and mx >= 5:
                                 d["observe"] = False
                             yield d
+    # histories: chains of operators on the SAME tree objects, looked at / cloned / pickled in between
+    # (the closure clauses speak about trees the operators produced themselves, however often and in whatever order)
+    nseq = (40000 if thorough else 2400) * mult
+    for i in range(nseq):
+        ps = get_ps(PSNAMES[i % len(PSNAMES)])
+        yield seq_desc(rng, ps, ["none", "all", "some", "none"][(i // len(PSNAMES)) % 4], sparse=(i // (4 * len(PSNAMES))) % 2 == 1)
     # crossover in a strongly typed set whose roots return `object` (the untyped shortcut removed by the fix of
     # cxOnePoint would swap nodes of unrelated types there)
     for i in range((2000 if thorough else 200) * mult):
@@ -954,7 +1313,7 @@ def shrink(d):
                 h[key] = g[key] - 1
                 h["mn"] = min(h["mn"], h["mx"])
                 yield h
-        if g["mode"] == "half":
+        if g["mode"] in ("half", "ramped"):
             for m in ("full", "grow"):
                 h = dict(g)
                 h["mode"] = m
@@ -963,7 +1322,27 @@ def shrink(d):
         for h in smaller(d):
             yield h
         return
-    if "lim" in d:
+    if d["k"] == "seq":
+        st = d["steps"]
+        for n in range(len(st) - 1, -1, -1):           # drop one step (from the end)
+            e = dict(d)
+            e["steps"] = st[:n] + st[n + 1:]
+            yield e
+        if d.get("lim"):
+            e = dict(d)
+            del e["lim"]
+            e["steps"] = [dict((k, v) for k, v in x.items() if k != "lim") for x in st]
+            yield e
+        if len(d["t"]) > 2 and not any(x.get("i") == len(d["t"]) - 1 or x.get("j") == len(d["t"]) - 1 for x in st):
+            e = dict(d)
+            e["t"] = d["t"][:-1]
+            yield e
+        for n, x in enumerate(st):
+            if x.get("how") not in (None, "all") :
+                e = dict(d)
+                e["steps"] = st[:n] + [dict(x, how="all")] + st[n + 1:]
+                yield e
+    elif "lim" in d:
         e = dict(d)
         del e["lim"]
         yield e
@@ -977,6 +1356,11 @@ def shrink(d):
                 e = dict(d)
                 e["t"] = d["t"][:i] + [h] + d["t"][i + 1:]
                 yield e
+    if isinstance(d.get("t"), dict):
+        for h in smaller(d["t"]):
+            e = dict(d)
+            e["t"] = h
+            yield e
     for s in range(0, 6):
         if d.get("seed") != s:
             e = dict(d)
